@@ -2463,7 +2463,9 @@ CHECK = core.Check(
                  'C14_newsa/C14_delsa/C14_flush are proved for all parameter values inside wf_sa / wf_ip / wf32 '
                  '(one address family per selector pair and per endpoint pair, 4-byte SPI, names < 64 bytes without '
                  'NUL, keys <= 64 bytes, -1 <= lifetime < 2^64-10, seq and pid below 2^32)',
-                 'NEWPOLICY, events and replies are not proved: they are covered by the correspondence with the model '
+                 'C14_newpolicy is proved for all parameter values inside wf_pol (one family per selector pair and per '
+                 'endpoint pair, direction/IPsec protocol/mode below 256, 32-bit index) and all 32-bit seq/pid',
+                 'events and replies are not proved: they are covered by the correspondence with the model '
                  'and by the gcc-offset oracle on the real code only',
                  'a reply whose header announces length 0 makes send_recv spin forever (the model says Diverged); '
                  'the kernel never sends one, such replies are generated for the model only',
